@@ -432,6 +432,9 @@ def judge_trees(events, part: Part, family: str, clause_props=CLAUSE_PROPS):
     part.traces += len(events)
     for v in verdicts:
         ev = v["event"]
+        if v["tag"] == "TK":
+            part.known[v["kf"]] += 1
+            continue
         for clause, ok in v["v"].items():
             if not ok:
                 part.violations.append({
